@@ -77,7 +77,7 @@ def solsOf (c : Costs) (md : ModeData) (whole : OTree) (keep : Bool) (p s : Path
       fun x => x.2.1.sols.flatMap fun sl => x.2.2.sols.map fun sr => Sol.node s f sl sr
   else []
 
-def nodeCell (c : Costs) (md : ModeData) (whole : OTree) (keep : Bool) (p s : Path) (f : List Nat)
+def adqNodeCell (c : Costs) (md : ModeData) (whole : OTree) (keep : Bool) (p s : Path) (f : List Nat)
     (L R : List OCell) : Option OCell :=
   if (bestOf c md whole p s f L R).isInf then none
   else some { sp := s, fam := f, cost := bestOf c md whole p s f L R,
@@ -90,12 +90,12 @@ theorem optTable_leaf (c : Costs) (S : RTree) (md : ModeData) (base keep : Bool)
          sols := if keep then [.leaf sp (leafLabel md f)] else [] }] := by
   cases md <;> rfl
 
-theorem optTable_node (c : Costs) (S : RTree) (md : ModeData) (base keep : Bool) (whole : OTree)
+theorem optTable_node_adq (c : Costs) (S : RTree) (md : ModeData) (base keep : Bool) (whole : OTree)
     (p : Path) (l r : OTree) :
     optTable c S md base keep whole p (.node l r) =
       (speciesSpace S base (.node l r)).flatMap fun s =>
         (labelSpace md whole p).filterMap fun f =>
-          nodeCell c md whole keep p s f
+          adqNodeCell c md whole keep p s f
             (optTable c S md base keep whole (p ++ [0]) l)
             (optTable c S md base keep whole (p ++ [1]) r) := rfl
 
@@ -110,8 +110,8 @@ theorem mem_optTable_node {c : Costs} {S : RTree} {md : ModeData} {base keep : B
                    (optTable c S md base keep whole (p ++ [1]) r),
                  sols := solsOf c md whole keep p s f (optTable c S md base keep whole (p ++ [0]) l)
                    (optTable c S md base keep whole (p ++ [1]) r) } := by
-  rw [optTable_node]
-  simp only [List.mem_flatMap, List.mem_filterMap, nodeCell]
+  rw [optTable_node_adq]
+  simp only [List.mem_flatMap, List.mem_filterMap, adqNodeCell]
   constructor
   · rintro ⟨s, hs, f, hf, h⟩
     refine ⟨s, hs, f, hf, ?_⟩
